@@ -281,7 +281,19 @@ def observe_parse(text, path=None):
         return ('dat_error', type(err).__name__, str(err))
     except Exception as err:  # noqa - anything else is what the property forbids
         return ('exception', type(err).__name__, str(err))
-    return ('ok', extract(fa))
+    global _EARLIER
+    now = extract(fa)
+    changed = None
+    if _EARLIER is not None and repr(extract(_EARLIER[0])) != _EARLIER[1]:
+        changed = 'the frame array returned by an earlier parse reads differently after this parse: %s, when it was returned %s' % (
+            repr(extract(_EARLIER[0]))[:300], _EARLIER[1][:300])
+    _EARLIER = (fa, repr(now))      # a result the caller still holds
+    if changed:
+        return ('exception', 'EarlierResultChanged', changed)
+    return ('ok', now)
+
+
+_EARLIER = None
 
 
 def observe_can(text):
